@@ -503,6 +503,11 @@ func genCase(r *Rng, o GenOpts) Case {
 	c.P2 = o.P2[r.Intn(len(o.P2))]
 	c.P4 = o.P4[r.Intn(len(o.P4))]
 	c.P5 = o.P5[r.Intn(len(o.P5))]
+	// a small pivot budget for network simplex (layerer and positioner): the budget-exhausted exits are only reached
+	// with low thoroughness
+	if r.Bool(22) {
+		c.Thoroughness = 1 + r.Intn(2)
+	}
 	// OrderingNoop: phase 3 keeps the order of the layering (it still breaks long edges and numbers positions)
 	if o.P3Noop > 0 && r.Bool(o.P3Noop) {
 		c.P3 = "noop"
